@@ -22,3 +22,20 @@ package diode
 //@   ensures ncalls(diodeFetcher.Set) == old(ncalls(diodeFetcher.Set)) + 1
 //@   ensures eqbytes(deref(cast(callarg(diodeFetcher.Set, old(ncalls(diodeFetcher.Set)), 1), "*[]byte")), p)
 //@   ensures len(p) > 0 ==> base(deref(cast(callarg(diodeFetcher.Set, old(ncalls(diodeFetcher.Set)), 1), "*[]byte"))) != base(p)
+
+// The consumer loop: every datum Next hands out goes to the wrapped writer
+// exactly once, in order, whatever that writer returns; the loop ends only
+// when Next returns nil (which, by Next's contract, happens only after an
+// empty look at the ring that follows the cancellation).
+//@ func (Writer).poll(dw)
+//@   props C10 C11
+//@   flag replay diode_poll
+//@   arith int
+//@   requires dw.d != nil && dw.w != nil
+//@   ensures ncalls(diodeFetcher.Next) > old(ncalls(diodeFetcher.Next)) && callres(diodeFetcher.Next, ncalls(diodeFetcher.Next) - 1, 0) == nil
+//@   ensures ncalls(io.Writer.Write) - old(ncalls(io.Writer.Write)) == ncalls(diodeFetcher.Next) - old(ncalls(diodeFetcher.Next)) - 1
+//@   ensures forall j in old(ncalls(io.Writer.Write))..ncalls(io.Writer.Write): callarg(io.Writer.Write, j, 0) == dw.w && callres(diodeFetcher.Next, old(ncalls(diodeFetcher.Next)) + (j - old(ncalls(io.Writer.Write))), 0) != nil && same(callarg(io.Writer.Write, j, 1), deref(cast(callres(diodeFetcher.Next, old(ncalls(diodeFetcher.Next)) + (j - old(ncalls(io.Writer.Write))), 0), "*[]byte")))
+//@   loop 1:
+//@     invariant ncalls(io.Writer.Write) - old(ncalls(io.Writer.Write)) == ncalls(diodeFetcher.Next) - old(ncalls(diodeFetcher.Next))
+//@     invariant ncalls(io.Writer.Write) >= old(ncalls(io.Writer.Write))
+//@     invariant forall j in old(ncalls(io.Writer.Write))..ncalls(io.Writer.Write): callarg(io.Writer.Write, j, 0) == dw.w && callres(diodeFetcher.Next, old(ncalls(diodeFetcher.Next)) + (j - old(ncalls(io.Writer.Write))), 0) != nil && same(callarg(io.Writer.Write, j, 1), deref(cast(callres(diodeFetcher.Next, old(ncalls(diodeFetcher.Next)) + (j - old(ncalls(io.Writer.Write))), 0), "*[]byte")))
